@@ -63,3 +63,14 @@ Example C18_nonvacuous :
   get_location [123;32;97;32;125;13;10;32;32;37] 9 = (2, 3%Z) /\
   loc_ok [123;32;97;32;125;13;10;32;32;37] 9 2 3 = true.
 Proof. split; reflexivity. Qed.
+
+(* Field errors, whole request: every path attached to an error of a completed request that
+   returned data addresses a null of that data -- walking the data along the path, a null is met
+   at the path's end or at one of its prefixes (the nearest nullable ancestor the failure
+   propagated to).  [paths_ok] is the executable predicate the runner evaluates on the
+   implementation's response (Run/ExecRun.v). *)
+From GQL Require Import Exec.Request Run.ExecRun Proofs.ExecPaths.
+Theorem C18_error_paths_address_null : forall fuel S D opn inputs root or tor d s,
+  request fuel S D opn inputs root or tor = RDone (Some d) s -> paths_ok (Some d) (st_errs s) = true.
+Proof. exact request_error_paths_null. Qed.
+Print Assumptions C18_error_paths_address_null.
